@@ -26,6 +26,8 @@ pub enum Ctor {
     Key1,
     Key2,
     Unencrypted,
+    /// the keyring constructor (entry A) while the keyring refuses to *store* a fresh key
+    KeyringAWriteFails,
 }
 
 #[derive(Clone, Copy, Debug, PartialEq, Eq, Hash, Serialize, Deserialize)]
@@ -427,23 +429,30 @@ fn matrix_inner(start: FileState, attempts: &[Ctor], nested: u8, shape: u8, rep:
         let before = std::fs::read(&path).ok();
         let key_a_before = key_of(&id_a);
         let key_b_before = key_of(&id_b);
+        if matches!(c, Ctor::KeyringAWriteFails) {
+            crate::keystore::fail_next_write(KEYRING_SERVICE, &id_a);
+        }
         let r = match c {
-            Ctor::KeyringA => MdkSqliteStorage::new(&path, KEYRING_SERVICE, &id_a),
+            Ctor::KeyringA | Ctor::KeyringAWriteFails => MdkSqliteStorage::new(&path, KEYRING_SERVICE, &id_a),
             Ctor::KeyringB => MdkSqliteStorage::new(&path, KEYRING_SERVICE, &id_b),
             Ctor::Key1 => MdkSqliteStorage::new_with_key(&path, EncryptionConfig::new(k1)),
             Ctor::Key2 => MdkSqliteStorage::new_with_key(&path, EncryptionConfig::new(k2)),
             Ctor::Unencrypted => MdkSqliteStorage::new_unencrypted(&path),
         };
         // the key this constructor presents (None = no key)
+        // (an injected write fault that nothing consumed - no fresh key was needed - is taken back)
+        let write_failed = matches!(c, Ctor::KeyringAWriteFails) && !crate::keystore::disarm(KEYRING_SERVICE, &id_a);
         let presented: Option<Option<[u8; 32]>> = match c {
-            Ctor::KeyringA => Some(key_a_before),
+            Ctor::KeyringA | Ctor::KeyringAWriteFails => Some(key_a_before),
             Ctor::KeyringB => Some(key_b_before),
             Ctor::Key1 => Some(Some(k1)),
             Ctor::Key2 => Some(Some(k2)),
             Ctor::Unencrypted => None,
         };
-        let is_keyring = matches!(c, Ctor::KeyringA | Ctor::KeyringB);
+        let is_keyring = matches!(c, Ctor::KeyringA | Ctor::KeyringB | Ctor::KeyringAWriteFails);
         let expect_ok = match (&state, &presented) {
+            // a key that could not be stored must not be used: no database comes into being
+            (St::Missing, _) if write_failed => false,
             (St::Missing, _) => true,
             (St::Empty, None) => true,
             // an existing keyring entry is used on an empty file; without one the file counts as unencrypted
@@ -463,6 +472,18 @@ fn matrix_inner(start: FileState, attempts: &[Ctor], nested: u8, shape: u8, rep:
             ));
         }
         match r {
+            Err(_) if write_failed => {
+                // nothing encrypted may be left behind, and no key
+                if key_of(&id_a).is_some() {
+                    return Err(Failure::new("keyring-key-was-replaced", format!("{what}: the keyring refused to store the key, yet an entry exists")));
+                }
+                match std::fs::read(&path).ok() {
+                    None => {}
+                    Some(b) if b.is_empty() => state = St::Empty,
+                    Some(_) => return Err(Failure::new("failed-open-modified-the-file", format!("{what}: a database file was left behind although its key could not be stored"))),
+                }
+                rep.classes.push("keyring-write-fault-consumed".into());
+            }
             Err(_) => {
                 // a refused open leaves the file as it was and creates no key
                 if std::fs::read(&path).ok() != before {
@@ -485,7 +506,7 @@ fn matrix_inner(start: FileState, attempts: &[Ctor], nested: u8, shape: u8, rep:
                             Ctor::Unencrypted => St::Plain,
                             Ctor::Key1 => St::Enc(k1),
                             Ctor::Key2 => St::Enc(k2),
-                            Ctor::KeyringA => St::Enc(key_of(&id_a).ok_or_else(|| Failure::new("keyring-entry-missing-after-use", what.clone()))?),
+                            Ctor::KeyringA | Ctor::KeyringAWriteFails => St::Enc(key_of(&id_a).ok_or_else(|| Failure::new("keyring-entry-missing-after-use", what.clone()))?),
                             Ctor::KeyringB => St::Enc(key_of(&id_b).ok_or_else(|| Failure::new("keyring-entry-missing-after-use", what.clone()))?),
                         };
                         // (only when the library created the directories itself)
@@ -673,7 +694,7 @@ pub fn main(args: &Args) -> i32 {
     let spec = Spec {
         id: "C13",
         level: "exploration",
-        rule: "three generated case families. (1) histories (messages incl. 20-50 KB values, group-data changes, races and rollbacks) on SQLCipher storage opened with a caller key or through the (mock) keyring, under umasks 000 / 007 / 022 / 027 / 037 / 077: the canaries read back through the API (message texts, group names/descriptions, relay URL, member public keys, MLS and Nostr group ids, exporter secrets of every epoch, image keys, the database key; raw, hex in both cases, base64) are searched in every -journal/-wal/-shm/temp file at every storage tick and in every file of the directory at rest; then pragmas, file mode 0600, one-bit-wrong key / no key refused without touching the file, right key yields the same fingerprint. (2) constructor x file-state matrix: {keyring A, keyring B, key 1, key 2, unencrypted} in generated order on one path starting {missing, empty, plain, encrypted with key 1, encrypted through keyring A}, optionally below 1-2 directories the library must create (0700), now and then with stale world-readable sidecar files next to the database (owner-only after a successful open): Ok/Err per model, refused opens leave file and keyring untouched, keyring entries are reused, the right credentials show the same dump. (3) 2..16 threads opening one new path through the keyring at once: no panic, one key, instances share rows, normal open afterwards. Non-trivial = every history / concurrent case, matrix cases with >= 2 attempts on an existing file; distinct = distinct cases".into(),
+        rule: "three generated case families. (1) histories (messages incl. 20-50 KB values, group-data changes, races and rollbacks) on SQLCipher storage opened with a caller key or through the (mock) keyring, under umasks 000 / 007 / 022 / 027 / 037 / 077: the canaries read back through the API (message texts, group names/descriptions, relay URL, member public keys, MLS and Nostr group ids, exporter secrets of every epoch, image keys, the database key; raw, hex in both cases, base64) are searched in every -journal/-wal/-shm/temp file at every storage tick and in every file of the directory at rest; then pragmas, file mode 0600, one-bit-wrong key / no key refused without touching the file, right key yields the same fingerprint. (2) constructor x file-state matrix: {keyring A, keyring B, key 1, key 2, unencrypted, keyring A while the keyring refuses to store a fresh key (the open must fail and leave neither key nor database)} in generated order on one path starting {missing, empty, plain, encrypted with key 1, encrypted through keyring A}, optionally below 1-2 directories the library must create (0700), now and then with stale world-readable sidecar files next to the database (owner-only after a successful open): Ok/Err per model, refused opens leave file and keyring untouched, keyring entries are reused, the right credentials show the same dump. (3) 2..16 threads opening one new path through the keyring at once: no panic, one key, instances share rows, normal open afterwards. Non-trivial = every history / concurrent case, matrix cases with >= 2 attempts on an existing file; distinct = distinct cases".into(),
         assumptions: vec![
             "the platform keyring is the in-process mock store of keyring-core".into(),
             "rollback journals of single autocommitted statements exist only during the statement: they are seen where a storage tick falls inside the explicit transactions, and at rest".into(),
@@ -683,7 +704,7 @@ pub fn main(args: &Args) -> i32 {
         max_shrink_iters: 200,
         exhaustive: false,
     };
-    let ctor = prop::sample::select(vec![Ctor::KeyringA, Ctor::KeyringB, Ctor::Key1, Ctor::Key2, Ctor::Unencrypted]);
+    let ctor = prop::sample::select(vec![Ctor::KeyringA, Ctor::KeyringA, Ctor::KeyringB, Ctor::KeyringB, Ctor::Key1, Ctor::Key1, Ctor::Key2, Ctor::Key2, Ctor::Unencrypted, Ctor::Unencrypted, Ctor::KeyringAWriteFails]);
     let fstate = prop::sample::select(vec![FileState::Missing, FileState::Empty, FileState::Plain, FileState::EncryptedKey1, FileState::EncryptedKeyringA, FileState::EmptyWithKeyringEntryA]);
     drive(
         args,
